@@ -19,6 +19,7 @@ TECHNIQUE = 'runtime monitor: independent node-entry counter (M1) + probe/effect
 ADDR = re.compile(r'0x[0-9a-f]+')
 RULE = "programs: (i) type-directed programs of G2 (all node kinds, lambdas driven by map/filter/reduce/sorted) extended with host probes emit(...), host callbacks hm(f, n), try_(f, ...) (which swallows the error and lets the program continue) and reenter(k) (which evaluates another program on the same parser while the call is in flight); (ii) scoping scenarios with recursive and re-entrant lambdas; (iii) a program lambda handed to every entry of the function table; (iv) helper lambdas compiled by the host and supplied through ast_names, called repeatedly; each on a plain parser and on one with a parse cache (the same text evaluated repeatedly). For every program: one 'unbounded' run (budget 20000), then every budget N in 1..min(T+2, 60), random N up to T+2, and the default. Histories: 2-6 eval calls sharing one names mapping, call i defining a lambda that call j > i invokes under a different budget. Non-trivial = a (program, N) pair in which the run was compared with the unbounded run (threshold, abort point, monotonicity, effect prefix, counter equality); distinct = distinct (program text, N, parser kind)."
 RULE += ' Every program also runs under two budgets far above any need (10^6 ... 10^20000, integers too long to print included).'
+RULE += ' Host values objs(f, n) whose __eq__/__lt__/__bool__/__str__ call the program lambda f are searched, sorted, compared, tested and printed by builtins (the callbacks are charged to the call).'
 ASSUMPTIONS = ['an operation = one evaluation of a syntax-tree node, counted by M1 at the entry of every concrete node class\'s eval (independent of Op.eval)',
                'a run with budget N returns normally iff the unbounded run needs T < N operations; otherwise it raises the ops-limit error at the N-th node entry, before any effect of that node',
                'host-visible effects = probe calls, writes to the host names mapping, mutator calls (each logged with its arguments); an aborted run\'s log must be a prefix of the unbounded run\'s']
